@@ -192,6 +192,12 @@ var ClientSpec = map[string]struct {
 	"c1x": {&net.UDPAddr{IP: net.IP{0, 0, 0, 0, 0, 0, 0, 0, 0, 0, 0, 0, 10, 0, 0, 2}, Port: 4000}, "u2"},
 }
 
+// RevokedUser is a user whose password the auth handler knows (it returns the right key) but whom it refuses.
+const (
+	RevokedUser = "revoked"
+	RevokedPass = "pr"
+)
+
 // PeerSpec describes the scripted peers.
 var PeerSpec = map[string]*net.UDPAddr{
 	"A":   {IP: net.IPv4(10, 1, 0, 1).To4(), Port: 5000},
@@ -281,6 +287,10 @@ func NewWorld(cfg Config, clients, peers []string) (*World, error) {
 			w.lifeMu.Lock()
 			w.AuthCalls++
 			w.lifeMu.Unlock()
+			if ra.Username == RevokedUser && ra.Realm == Realm {
+				// an operator handler that derives the key first and decides afterwards: the verdict is "no"
+				return ra.Username, wire.LongTermKey(ra.Username, ra.Realm, RevokedPass), false
+			}
 			p, ok := Users[ra.Username]
 			if !ok || ra.Realm != Realm {
 				return "", nil, false
